@@ -67,7 +67,9 @@ type c15LedgerCase struct {
 	// claimed for validated histories, so the supply oracle is off for the rest of the case
 	tainted bool
 
-	node *kernel.Node
+	badAkey, badDep map[int]bool // symbols declared malformed (checked against the real rules)
+	kvalidFin       map[crypto.Hash]bool
+	node            *kernel.Node
 	// snapshots the node's own validateSnapshotTransaction accepted (by hash)
 	kvalid map[crypto.Hash]bool
 	// validation-time facts of a deposit the real Validate accepted: the stored total then, and whether
@@ -96,6 +98,8 @@ func c15AssetHash(a int) crypto.Hash {
 
 func c15ChainHash(c int) crypto.Hash {
 	switch c {
+	case 0:
+		return crypto.Hash{} // the zero chain: refused by Asset.Verify
 	case 2:
 		return common.BitcoinAssetId
 	case 3:
@@ -104,12 +108,48 @@ func c15ChainHash(c int) crypto.Hash {
 	return crypto.Sha256Hash([]byte(fmt.Sprintf("verif-chain-%d", c)))
 }
 
+// asset key symbols 9001.. are the boundaries of Asset.Verify's key rule
+// (strings.TrimSpace(key) != key || len(key) == 0); 9005/9007 are well formed look-alikes
 func c15AssetKey(k int) string {
-	if k == 1 {
+	switch k {
+	case 1:
 		return common.XINAsset.AssetKey
+	case 9001:
+		return " key9001"
+	case 9002:
+		return "key9002 "
+	case 9003:
+		return "\tkey9003"
+	case 9004:
+		return ""
+	case 9005:
+		return "ke y9005"
+	case 9006:
+		return "key9006\n"
+	case 9007:
+		return "k"
+	case 9008:
+		return "\u00a0key9008" // a non-breaking space is white space for TrimSpace
 	}
 	return fmt.Sprintf("key%d", k)
 }
+
+// deposit symbols 9101.. are the boundaries of the rule on DepositData.Transaction
+func c15DepositTx(d int) string {
+	switch d {
+	case 9101:
+		return " dep9101"
+	case 9102:
+		return "dep9102 "
+	case 9103:
+		return ""
+	case 9104:
+		return "dep 9104"
+	}
+	return fmt.Sprintf("dep%d", d)
+}
+
+func c15DepositTxOk(t string) bool { return strings.TrimSpace(t) == t && len(t) > 0 }
 
 func c15Cap(a int) *big.Int { return integerToBig(common.GetAssetCapacity(c15AssetHash(a))) }
 
@@ -144,7 +184,7 @@ func c15NewLedgerCase(root string) *c15LedgerCase {
 		assetOf: map[int]crypto.Hash{}, chainID: map[crypto.Hash]int{}, akeyID: map[string]int{},
 		opaqueID: map[string]int{}, validated: map[int]bool{}, locked: map[int]bool{}, pending: map[int]bool{},
 		expected: map[int]*big.Int{}, finalTx: map[int]bool{},
-		kvalid: map[crypto.Hash]bool{}, valTotal: map[int]*big.Int{}, valSeen: map[int]bool{}}
+		kvalid: map[crypto.Hash]bool{}, kvalidFin: map[crypto.Hash]bool{}, badAkey: map[int]bool{}, badDep: map[int]bool{}, valTotal: map[int]*big.Int{}, valSeen: map[int]bool{}}
 	c.custodian = common.NewAddressFromSeed(c15Seed64("custodian", 0))
 	type gnode struct {
 		Signer    string `json:"signer"`
@@ -282,7 +322,14 @@ func (c *c15LedgerCase) buildTx(f []string) {
 			tx.AddInput(src.PayloadHash(), uint(c15Atoi(p[2])))
 		case "d":
 			d := &common.DepositData{Chain: c15ChainHash(c15Atoi(p[2])), AssetKey: c15AssetKey(c15Atoi(p[3])),
-				Transaction: "dep" + p[1], Index: 0, Amount: integerFromBig(parseBig(p[4]))}
+				Transaction: c15DepositTx(c15Atoi(p[1])), Index: 0, Amount: integerFromBig(parseBig(p[4]))}
+			// the model's format oracles are the real functions: an undeclared symbol must be well formed
+			if ok := (&common.Asset{Chain: common.BitcoinAssetId, AssetKey: d.AssetKey}).Verify() == nil; ok == c.badAkey[c15Atoi(p[3])] {
+				panic("harness: asset key symbol declared differently from what Asset.Verify says")
+			}
+			if c15DepositTxOk(d.Transaction) == c.badDep[c15Atoi(p[1])] {
+				panic("harness: deposit symbol declared differently from the transaction string rule")
+			}
 			c.depID[d.UniqueKey()] = c15Atoi(p[1])
 			c.chainID[d.Chain] = c15Atoi(p[2])
 			c.akeyID[d.AssetKey] = c15Atoi(p[3])
@@ -671,6 +718,12 @@ func c15ExecLedger(prop string) func(st *State, line string) Result {
 			}
 			c.expected[a] = new(big.Int)
 			res.Out = "ok"
+		case "badakey":
+			c.badAkey[c15Atoi(f[1])] = true
+			res.Out = "ok"
+		case "baddep":
+			c.badDep[c15Atoi(f[1])] = true
+			res.Out = "ok"
 		case "ginfo":
 			c.chainID[c15ChainHash(c15Atoi(f[2]))] = c15Atoi(f[2])
 			c.akeyID[c15AssetKey(c15Atoi(f[3]))] = c15Atoi(f[3])
@@ -937,7 +990,12 @@ func (c *c15LedgerCase) finalize(b *c15Snap, prop string, res *Result, viaNode b
 	premise := true
 	for _, id := range txs {
 		if _, ok := before.get(append(append([]byte("UNIQUE"), c.hashOf(id)...), nodeID[:]...)); ok {
-			premise = false // batch rule: a node includes a transaction once
+			// batch rule: a node includes a transaction once. When the node's own validation of a
+			// proposal accepted this snapshot it has vouched for that rule as well (a transaction finalized
+			// in another snapshot must be refused at signing); the caller is to blame only otherwise.
+			if !c.kvalid[snap.Hash] || c.kvalidFin[snap.Hash] {
+				premise = false
+			}
 		}
 		if _, fin := before.get(append([]byte("FINALIZATION"), c.hashOf(id)...)); fin {
 			continue
@@ -1193,6 +1251,7 @@ func (c *c15LedgerCase) execKValidate(f []string, res *Result) {
 	after := c.raw()
 	if out == "ok" {
 		c.kvalid[b.snap.Hash] = true
+		c.kvalidFin[b.snap.Hash] = finalized
 		for _, id := range b.txs {
 			if c.finalTx[id] {
 				continue
